@@ -278,7 +278,8 @@ class HTTPResponse(BaseResponse, OmbottException):
         response._status_code = self._status_code
         response._status_line = self._status_line
         response._headers.clear()
-        response._headers.update(self._headers)
+        # multi-valued headers are lists: the response gets its own (this object may answer further requests)
+        response._headers.update({k: (v[:] if isinstance(v, list) else v) for k, v in self._headers.items()})
         if self._cookies:
             response._cookies = self._cookies
         response.body = self.body
